@@ -11,6 +11,9 @@ import vcheck as V
 import re
 _re_known = re.compile(r'^<<"KNOWN", (\d+), (.*)>>$')
 
+_re_mis_ml = re.compile(r'^<<\s*"MISMATCH",\s*(\d+),\s*(.*?)\s*>>\s*$', re.S | re.M)
+_re_known_ml = re.compile(r'^<<\s*"KNOWN",\s*(\d+),\s*(.*?)\s*>>\s*$', re.S | re.M)
+
 DRIVER_FILES = ["detlib.go", "detsim.go", "inputsim.go", "repsim.go"]
 BATCHABLE = {"set", "setex", "hmset", "del"}
 
@@ -56,7 +59,7 @@ def validate(ctx, module, cfg, files, name, reset_ev, n=8, timeout=900):
                                        timeout=timeout)
     out = []
     for f, (consumed, mism, res) in V.parallel(one, files, n=n):
-        if not consumed and not mism:
+        if not consumed and not mism and not _re_mis_ml.search(res.out):
             # retry once (JVM start under load), then skip and count
             consumed, mism, res = V.validate_seq_trace(ctx, module, cfg, f, tag=name + "-retry", timeout=timeout)
             if not consumed and not mism:
@@ -66,17 +69,18 @@ def validate(ctx, module, cfg, files, name, reset_ev, n=8, timeout=900):
                     continue
                 raise V.Inconclusive("trace validation of %s did not complete: %s" % (f, res.error or res.out[-400:]))
         events = V.read_ndjson(f)
+        # TLC wraps a printed tuple over several lines when it is longer than about 80 columns;
+        # vcheck only sees single-line tuples, so the output is parsed again here across lines
+        mism = [(int(m.group(1)), " ".join(m.group(2).split())) for m in _re_mis_ml.finditer(res.out)]
         fails = []
         for line, exp in mism:
             s, seg = V.segment_of(events, line, reset_ev=reset_ev)
             fails.append((line, exp, seg))
         known = []
-        for p in res.prints:
-            m = _re_known.match(p)
-            if m:
-                ln = int(m.group(1))
-                s, seg = V.segment_of(events, ln, reset_ev=reset_ev)
-                known.append((ln, m.group(2), seg))
+        for m in _re_known_ml.finditer(res.out):
+            ln = int(m.group(1))
+            s, seg = V.segment_of(events, ln, reset_ev=reset_ev)
+            known.append((ln, " ".join(m.group(2).split()), seg))
         out.append((f, events, fails, known))
     return out
 
@@ -163,7 +167,7 @@ def selftest_binding(ctx, module, cfg, good_file, corruptions, name):
         p = os.path.join(os.path.dirname(good_file), "selftest-%s-%s.ndjson" % (name, label))
         V.write_ndjson(p, ev2)
         consumed, mism, r = V.validate_seq_trace(ctx, module, cfg, p, tag="selftest-%s-%s" % (name, label))
-        res[label] = bool(mism) or not consumed
+        res[label] = bool(mism) or bool(_re_mis_ml.search(r.out)) or not consumed
     bad = [k for k, v in res.items() if not v]
     if bad:
         raise V.Inconclusive("binding self-test: corrupted trace(s) %s were accepted by %s" % (bad, module))
